@@ -118,6 +118,33 @@ fn main() {
         },
         Some("replay") if a.len() >= 3 => coord::replay_main(&a[2]),
         Some("selftest") => selftest(a.get(2).map(|s| s == "deep").unwrap_or(false)),
+        Some("gen-debug") if a.len() >= 4 => {
+            // print what a generator produces (development aid)
+            let g: u32 = a[2].parse().unwrap_or(0);
+            let n: u64 = a[3].parse().unwrap_or(10);
+            let mut max_groups = 0usize;
+            for i in 0..n {
+                let mut t = tape::Tape::record(99, i);
+                let p = gen::generate(&mut t, g);
+                let l = p.legal_moves();
+                let mut groups: Vec<(u8, u8)> = l.iter().map(|m| (m.from, m.promo)).collect();
+                groups.sort();
+                groups.dedup();
+                let mut entries = groups.len();
+                for &(from, _) in &groups {
+                    let ep = l.iter().any(|&m| m.from == from && p.is_ep_capture(m));
+                    let other = l.iter().any(|&m| m.from == from && !p.is_ep_capture(m));
+                    if ep && other {
+                        entries += 1;
+                    }
+                }
+                if entries > max_groups {
+                    max_groups = entries;
+                    println!("{} entries={} legal={}", p.fen(), entries, l.len());
+                }
+            }
+            0
+        }
         _ => usage(),
     };
     std::process::exit(code);
